@@ -644,7 +644,31 @@ def check_scopes(repo, res, rule_entry, rule_methods):
                 sorted(e or []), is_local)
     _guard(global_does_not_leak, res, rule_methods, 'a global declaration does not extend into nested scopes', SCOPE,
            'a `global` declaration affects only the scope that contains it; a nested function binding the name has its own local')
-    res.count(rule_entry + '_scenarios', 10, floor=10)
+    def global_read_skips_enclosing_function():
+        # x = 0 / def outer(): x = 1; def inner(): global x; return x   -> the compiler emits LOAD_GLOBAL for inner's x
+        top, tf, gx, gy = build()
+        outer = m.scope('FuncScope', top, top)
+        of = m.flow('func', outer)
+        outer.attrs['flow'] = of
+        ox = m.name('x', (4, 4))
+        only_outer = m.name('w', (5, 4))
+        m.add(of, ox)
+        m.add(of, only_outer)
+        inner = m.scope('FuncScope', outer, top)
+        inf = m.flow('func', inner)
+        inner.attrs['flow'] = inf
+        inner.attrs['globals'].add('x')
+        inner.attrs['globals'].add('w')
+        x = m.describe(m.lookup(m.names_at(inf, (8, 8)), 'x'))
+        w = m.lookup(m.names_at(inf, (8, 8)), 'w')
+        y = m.describe(m.lookup(m.names_at(inf, (8, 8)), 'y'))
+        return x == frozenset([gx.oid]) and w is None and y == frozenset([gy.oid]), \
+            'nested function declaring `global x, w` inside a function that has locals x and w: x resolves to %s, must be the ' \
+            'module-level %s (never the enclosing function\'s %s); w (bound only in the enclosing function) resolves to %r, must be ' \
+            'unknown; undeclared y -> %s' % (sorted(x or []), gx.oid, ox.oid, w, sorted(y or []))
+    _guard(global_read_skips_enclosing_function, res, rule_methods, 'a name declared global skips the enclosing functions', SCOPE,
+           'a read of a name the scope declares global resolves at module level: bindings of enclosing functions are not candidates')
+    res.count(rule_entry + '_scenarios', 11, floor=11)
 
 
 def check_name_scope(repo, res, rule):
